@@ -388,11 +388,11 @@ type corpusEntry struct {
 	Attacker jspec  `json:"attacker"`
 }
 type jspec struct {
-	T                                               int
-	EventNonce, Height, SkywayNonce, BatchNonce     uint64
+	T                                                         int
+	EventNonce, Height, SkywayNonce, BatchNonce               uint64
 	Token, Sender, Receiver, Compass, Client, Contract, Chain string
-	Amount                                          *string
-	Orch                                            int
+	Amount                                                    *string
+	Orch                                                      int
 }
 
 func (j jspec) spec() spec {
@@ -429,6 +429,41 @@ func violationID(stored, voted types.EthereumClaim) (string, string) {
 		return "C11:pooled-cross-type:" + typeName(voted) + "->" + typeName(stored) + ":" + tag, tag
 	}
 	return "C11:pooled-differs:" + typeName(voted) + "." + strings.Join(d, "+") + ":" + tag, tag
+}
+
+// voteOracle: the direct oracle on the real store after an ACCEPTED submission of claim c (pristine wire copy) by
+// validator orch: exactly one attestation gained a vote; its stored body, read back from the raw store, agrees with
+// the submitted claim on type and every effect-bearing field and through the handler digest; its key is the key of
+// the stored body and of the submitted claim.
+func voteOracle(run *emit.Run, e *env, name string, orch int, c types.EthereumClaim, before, after map[string]attRec, replay any) {
+	s := struct{ Orch int }{orch}
+	// Which attestation (read back from the raw store) received this vote?
+	var hit []attRec
+	for k, a := range after {
+		if len(a.Votes) > len(before[k].Votes) {
+			hit = append(hit, a)
+		}
+	}
+	if len(hit) != 1 {
+		run.Violate("C11:vote-not-stored", fmt.Sprintf("%s: accepted claim of validator %d changed the votes of %d attestations (expected exactly 1)", name, s.Orch, len(hit)), replay)
+		return
+	}
+	a := hit[0]
+	// (1) the STORED body, byte for byte, against the claim the voter SUBMITTED
+	if id, _ := violationID(a.Body, c); id != "" {
+		run.Violate(id, fmt.Sprintf("%s: vote of validator %d for %s was counted for a stored %s body that differs in %v (submitted %q / stored %q); applying the voter's body: %q, applying the stored body: %q",
+			name, s.Orch, typeName(c), typeName(a.Body), effectDiff(a.Body, c), diffValues(c, a.Body), diffValues(a.Body, c), e.applyDigest(c), e.applyDigest(a.Body)), replay)
+	} else if d1, d2 := e.applyDigest(c), e.applyDigest(a.Body); d1 != d2 {
+		run.Violate("C11:pooled-digest-differs:"+typeName(c), fmt.Sprintf("%s: applying the voter's body gives %q, applying the stored body gives %q", name, d1, d2), replay)
+	}
+	// (2) the store key is the key of the stored body and of the submitted claim
+	if !bytes.Equal(a.Key, realKey(a.Body)) {
+		run.Violate("C11:key-not-of-stored-body:"+typeName(a.Body), fmt.Sprintf("%s: attestation stored under key %x but the body read back from the store has key %x (stored body %v)",
+			name, a.Key, realKey(a.Body), a.Body), replay)
+	}
+	if !bytes.Equal(a.Key, realKey(c)) {
+		run.Violate("C11:key-not-of-submitted-claim:"+typeName(c), fmt.Sprintf("%s: vote of validator %d went to key %x but the submitted claim has key %x", name, s.Orch, a.Key, realKey(c)), replay)
+	}
 }
 
 func TestCorr(t *testing.T) {
@@ -522,33 +557,7 @@ func TestCorr(t *testing.T) {
 			if !ok {
 				continue
 			}
-			// Which attestation (read back from the raw store) received this vote?
-			var hit []attRec
-			for k, a := range after {
-				if len(a.Votes) > len(before[k].Votes) {
-					hit = append(hit, a)
-				}
-			}
-			if len(hit) != 1 {
-				run.Violate("C11:vote-not-stored", fmt.Sprintf("%s: accepted claim of validator %d changed the votes of %d attestations (expected exactly 1)", name, s.Orch, len(hit)), replay)
-				continue
-			}
-			a := hit[0]
-			// (1) the STORED body, byte for byte, against the claim the voter SUBMITTED
-			if id, _ := violationID(a.Body, c); id != "" {
-				run.Violate(id, fmt.Sprintf("%s: vote of validator %d for %s was counted for a stored %s body that differs in %v (submitted %q / stored %q); applying the voter's body: %q, applying the stored body: %q",
-					name, s.Orch, typeName(c), typeName(a.Body), effectDiff(a.Body, c), diffValues(c, a.Body), diffValues(a.Body, c), e.applyDigest(c), e.applyDigest(a.Body)), replay)
-			} else if d1, d2 := e.applyDigest(c), e.applyDigest(a.Body); d1 != d2 {
-				run.Violate("C11:pooled-digest-differs:"+typeName(c), fmt.Sprintf("%s: applying the voter's body gives %q, applying the stored body gives %q", name, d1, d2), replay)
-			}
-			// (2) the store key is the key of the stored body and of the submitted claim
-			if !bytes.Equal(a.Key, realKey(a.Body)) {
-				run.Violate("C11:key-not-of-stored-body:"+typeName(a.Body), fmt.Sprintf("%s: attestation stored under key %x but the body read back from the store has key %x (stored body %v)",
-					name, a.Key, realKey(a.Body), a.Body), replay)
-			}
-			if !bytes.Equal(a.Key, realKey(c)) {
-				run.Violate("C11:key-not-of-submitted-claim:"+typeName(c), fmt.Sprintf("%s: vote of validator %d went to key %x but the submitted claim has key %x", name, s.Orch, a.Key, realKey(c)), replay)
-			}
+			voteOracle(run, e, name, s.Orch, c, before, after, replay)
 		}
 		var chs []string
 		for ch := range chains {
@@ -906,6 +915,36 @@ func TestCorr(t *testing.T) {
 			js[i] = toJ(ops[i])
 		}
 		doHist(name, ops, map[string]any{"kind": "history", "ops": js})
+	}
+
+	// ---------- second round: message router + real outgoing batch + stale keys + genesis round trips ----------
+	nGen := run.N * 8 / 100
+	if nGen < 24 {
+		nGen = 24
+	}
+	for i := 0; i < nGen; i++ {
+		switch i % 4 {
+		case 0:
+			doGen(run, envE, K, "batch-gate", batchHistory(r, batchNonce, batchTimeout))
+		case 1:
+			doGen(run, envE, K, "invalid-basic-mix", invalidMix(r))
+		default:
+			steps, name := genesisHistory(r)
+			doGen(run, envE, K, name, steps)
+		}
+	}
+	for i := 0; i < 24; i++ {
+		a := erc20A
+		if i%3 == 0 {
+			a = hexAddr(r)
+		}
+		if i%2 == 0 {
+			a = ethSpelling(r, a)
+		}
+		if i%7 == 0 {
+			a = randText(r, a)
+		}
+		ethCase(run, a)
 	}
 
 	if err := run.Finish("Skyway.Claims Corr.C11", "C11.case", "C11.check"); err != nil {
